@@ -50,6 +50,19 @@ abbrev ulShl (x k : Int) : Option Int := if 0 ≤ k ∧ k < 64 then some (x * 2 
 /-- C `x >> k` on a 64-bit unsigned word: undefined for k ∉ [0, 64) -/
 abbrev ulShr (x k : Int) : Option Int := if 0 ≤ k ∧ k < 64 then some (x / 2 ^ k.toNat) else none
 
+/-- conversion to `mp_limb_t` / `unsigned long` (wraps modulo 2^64) -/
+abbrev ulOfInt (x : Int) : Int := x % 2 ^ 64
+/-- `randombytes(buf, n)` over an explicit byte stream: `none` = the generator failed (stream exhausted);
+    otherwise the little-endian value of the n bytes written to `buf`, and the rest of the stream -/
+def randombytes (stream : List Nat) (n : Int) : Option (Int × List Nat) :=
+  if stream.length < n.toNat then none else some ((fromBytesLE (stream.take n.toNat) : Nat), stream.drop n.toNat)
+/-- `r[idx] &= mask` on a limb array held as its little-endian value -/
+def maskTopLimb (v idx mask : Int) : Int :=
+  let w := 2 ^ (64 * idx.toNat)
+  ((v.toNat % w + (v.toNat / w % 2 ^ 64 &&& mask.toNat) * w : Nat) : Int)
+/-- `mpz_roinit_n(tmp, r, n)`: the integer whose limbs are r[0..n) (r holds exactly n limbs) -/
+abbrev mpz_roinit_n (r n : Int) : Int := r
+
 /-! ### control-flow combinators -/
 
 /-- `while (cond) body` with a fuel bound (fuel exhausted while the condition still holds = non-termination) -/
